@@ -7,3 +7,12 @@ Theorem C09_new_run_shape : forall c ops, hist_ok ops -> forall r a, In (TStore 
   r_ver r = 1 /\ r_state r = RSInitiated /\ is_valid (ec_graph c) (r_status r) = true.
 Proof. exact store_new_facts. Qed.
 Print Assumptions C09_new_run_shape.
+
+(* in every reachable world, of any two runs of one foreign ID the one created earlier is finished: at most one run per
+   foreign ID is unfinished, whatever later activity (updates, data deletion, faults, redeliveries) touches older runs.
+   [w_recs] lists the runs in creation order. *)
+Theorem C09_one_unfinished : forall c ops, hist_ok ops ->
+  forall l1 a l2 b, w_recs (fst (run_ops c ops)) = l1 ++ a :: l2 -> In b l2 -> r_fid b = r_fid a ->
+  rs_finished (r_state a) = true.
+Proof. exact p_one_unfinished. Qed.
+Print Assumptions C09_one_unfinished.
